@@ -54,7 +54,7 @@ func c1Namespaces(c *Ctx, rule string) {
 			// a method of the encoder called through one of its interfaces: OpenNamespace is decided where it is
 			// defined; the others are balanced
 			if r := resolve(st, x.Call.Value); r != nil && isJSONEnc(r.Type()) {
-				return r, x.Call.Method.Name() == "OpenNamespace"
+				return r, FNm(x.Call.Method) == "OpenNamespace"
 			}
 		}
 		for _, a := range x.Call.Args {
@@ -138,7 +138,7 @@ func c1Namespaces(c *Ctx, rule string) {
 						relevant = true
 					}
 				case *ssa.Call:
-					if x.Call.IsInvoke() && (x.Call.Method.Name() == "MarshalLogObject") {
+					if x.Call.IsInvoke() && (FNm(x.Call.Method) == "MarshalLogObject") {
 						relevant = true
 					}
 				}
@@ -147,13 +147,13 @@ func c1Namespaces(c *Ctx, rule string) {
 		if !relevant {
 			continue
 		}
-		if Eligible(fn) && !hasLoop(fn) && fn.Name() != "clone" {
+		if Eligible(fn) && !hasLoop(fn) && FNm(fn) != "clone" {
 			continue // explored inline at its call sites
 		}
-		name := fn.String()
+		name := FStr(fn)
 		recv := fn.Params[0]
 		inl := func(h *ssa.Function) bool {
-			return h.Pkg != nil && h.Pkg.Pkg.Path() == CorePath && h.Name() != "AddTo" && h.Name() != "addFields" && (touches[h] || h.Parent() != nil)
+			return h.Pkg != nil && h.Pkg.Pkg.Path() == CorePath && FNm(h) != "AddTo" && FNm(h) != "addFields" && (touches[h] || h.Parent() != nil)
 		}
 		var bad []string
 		paths, cutAll := 0, 0
@@ -175,7 +175,7 @@ func c1Namespaces(c *Ctx, rule string) {
 					if !ok {
 						return nil
 					}
-					if sc := x.Call.StaticCallee(); sc != nil && sc.Pkg != nil && sc.Pkg.Pkg.Path() == CorePath && sc.Name() != "AddTo" && sc.Name() != "addFields" {
+					if sc := x.Call.StaticCallee(); sc != nil && sc.Pkg != nil && sc.Pkg.Pkg.Path() == CorePath && FNm(sc) != "AddTo" && FNm(sc) != "addFields" {
 						if touches[sc] {
 							return nil // explored inline
 						}
@@ -211,7 +211,7 @@ func c1Namespaces(c *Ctx, rule string) {
 					}
 				},
 				Event: func(in ssa.Instruction, st *ConcState) string {
-					if os.Getenv("ZV_DEBUG") != "" && fn.Name() == "EncodeEntry" {
+					if os.Getenv("ZV_DEBUG") != "" && FNm(fn) == "EncodeEntry" {
 						has := false
 						for k := range st.fmem {
 							if strings.HasSuffix(k, ").openNamespaces") {
@@ -219,10 +219,10 @@ func c1Namespaces(c *Ctx, rule string) {
 							}
 						}
 						if _, isCall := in.(*ssa.Call); !has && isCall && len(st.fmem) > 0 {
-							dbgGone[in.String()+"@"+in.Parent().Name()]++
+							dbgGone[in.String()+"@"+FNm(in.Parent())]++
 						}
 						if false {
-							return "GONE@" + in.String() + "@" + in.Parent().Name()
+							return "GONE@" + in.String() + "@" + FNm(in.Parent())
 						}
 					}
 					switch x := in.(type) {
@@ -236,7 +236,7 @@ func c1Namespaces(c *Ctx, rule string) {
 							return ""
 						}
 						out := ""
-						switch f.Name() {
+						switch FNm(f) {
 						case "AppendByte", "WriteByte":
 							if k, ok := st.Int(args[1]); ok && (k == '{' || k == '}') {
 								out = string(rune(k))
@@ -281,7 +281,7 @@ func c1Namespaces(c *Ctx, rule string) {
 						unk = true
 					case strings.HasPrefix(t, "ret("):
 						if t == "ret(?)" {
-							unk = fn.Name() != "EncodeEntry" // EncodeEntry works on a clone; the receiver's counter is not its business
+							unk = FNm(fn) != "EncodeEntry" // EncodeEntry works on a clone; the receiver's counter is not its business
 						} else {
 							final = parseIntOr(t[4:len(t)-1], -1)
 						}
@@ -300,16 +300,16 @@ func c1Namespaces(c *Ctx, rule string) {
 				switch {
 				case unk:
 					bad = append(bad, "the counter is not evident where the encoder is handed to user code / at return ("+tag+")")
-				case fn.Name() == "EncodeEntry":
+				case FNm(fn) == "EncodeEntry":
 					// works on a clone that starts with the context's o open namespaces and must end balanced
 					if d != -o {
 						bad = append(bad, "the entry closes "+itoa(int(-d))+" more brace(s) than it opened, with "+itoa(int(o))+" namespace(s) open in the context and "+itoa(int(user))+" opened by fields ("+tag+")")
 					}
-				case fn.Name() == "OpenNamespace":
+				case FNm(fn) == "OpenNamespace":
 					if d != 1 || final != o+1 {
 						bad = append(bad, "OpenNamespace must write one '{' and count it: net braces "+itoa(int(d))+", counter "+itoa(int(o))+" → "+itoa(int(final))+" ("+tag+")")
 					}
-				case strings.HasPrefix(fn.Name(), "Add") || strings.HasPrefix(fn.Name(), "Append"):
+				case strings.HasPrefix(FNm(fn), "Add") || strings.HasPrefix(FNm(fn), "Append"):
 					// a member or element is a complete value: whatever was open before is still open, and counted
 					if d != 0 || final != o {
 						bad = append(bad, "a complete member/element must leave the nesting as it found it: net braces "+itoa(int(d))+", counter "+itoa(int(o))+" → "+itoa(int(final))+" ("+tag+")")
